@@ -120,11 +120,13 @@ type Node struct {
 	// main-loop mimic
 	maxSync *uint64
 	// the worker's two one-slot inboxes (sync, election): filled by the main-loop half of a step, emptied by the worker half
-	pendSync   *pendingSync
-	handSync   *pendingSync // dequeued by the worker, not yet acted upon (the main loop may handle a newer sync meanwhile)
-	pendTrig   *interfaces.ElectionTrigger
-	pendTrigHV [2]uint64
-	FailCommit func(h uint64) bool // commit callback failure injection
+	pendSync    *pendingSync
+	handSync    *pendingSync // dequeued by the worker, not yet acted upon (the main loop may handle a newer sync meanwhile)
+	pendTrig    *interfaces.ElectionTrigger
+	pendTrigHV  [2]uint64
+	FailCommit  func(h uint64) bool // commit callback failure injection
+	PanicCommit bool                // ... the injected failure is a panic of the consumer's callback instead of an error
+	NoProofAt   map[uint64]bool     // heights the node entered by a sync that carried no proof of the previous block
 	// observations
 	Commits map[uint64]*CommitRec
 	Panics  int
@@ -200,7 +202,7 @@ func NewWorld(cfg *CaseConfig, rng *rand.Rand) *World {
 }
 
 func (w *World) newNode(id string) *Node {
-	n := &Node{Id: id, w: w, Commits: map[uint64]*CommitRec{}}
+	n := &Node{Id: id, w: w, Commits: map[uint64]*CommitRec{}, NoProofAt: map[uint64]bool{}}
 	n.ES = &FakeES{node: n, ch: make(chan *interfaces.ElectionTrigger), Base: 1}
 	n.St = state.NewState()
 	n.BU = &spi.BlockUtils{Node: id, Log: w.Log}
@@ -224,6 +226,9 @@ func (w *World) newNode(id string) *Node {
 			fail := n.FailCommit != nil && n.FailCommit(blk.H)
 			w.Log.Add(spi.Event{Node: id, Kind: spi.EvCommit, H: blk.H, Hash: string(spi.HashOf(blk)), Block: blk, Proof: proof, Ok: !fail, CtxErr: ctx.Err() != nil})
 			if fail {
+				if n.PanicCommit {
+					panic(spi.ConsumerPanic{What: fmt.Sprintf("commit callback of height %d", blk.H)})
+				}
 				return fmt.Errorf("injected commit failure")
 			}
 			return nil
@@ -339,6 +344,16 @@ func (w *World) WorkerTakeSync(n *Node) {
 	mark := w.Log.Len()
 	w.trace("sync", n.Id, "", fmt.Sprintf("h=%d", bh))
 	w.guard(n, "sync", func() { n.W.VerifUpdateState(blk, ps.proof) })
+	for _, e := range w.Log.Ev[mark:] {
+		if e.Node == n.Id && e.Kind == spi.EvNewRound && e.H == bh+1 {
+			// the round was started on this sync: its random seed derives from the proof that came with it
+			if bh >= 1 && len(ps.proof) == 0 {
+				n.NoProofAt[bh+1] = true
+			} else {
+				delete(n.NoProofAt, bh+1)
+			}
+		}
+	}
 	w.Mon.PostSync(n, pre, bh, w.Log.Ev[mark:])
 }
 
